@@ -32,6 +32,27 @@ impl PathBuf {
         ensures r@ == self@.push(t.os_view())
     { unimplemented!() }
 }
+// std's Path::file_stem / Path::extension on a final component (documented rule; ".." is not a component here)
+pub open spec fn last_dot(s: Seq<u8>) -> int decreases s.len() {
+    if s.len() == 0 { -1 } else if s.last() == 46u8 { s.len() - 1 } else { last_dot(s.drop_last()) }
+}
+pub open spec fn stem_of(s: Seq<u8>) -> Seq<u8> { if last_dot(s) <= 0 { s } else { s.subrange(0, last_dot(s)) } }
+pub open spec fn ext_of(s: Seq<u8>) -> Option<Seq<u8>> { if last_dot(s) <= 0 { None } else { Some(s.subrange(last_dot(s) + 1, s.len() as int)) } }
+impl PathBuf {
+    // std's documented stem/extension rule on the final component (specs/env_files.rs: stem_of / ext_of)
+    #[verifier::external_body]
+    pub fn file_stem(&self) -> (r: Option<&OsStr>)
+        ensures self@.len() > 0 ==> (r matches Some(s) && s@ == stem_of(self@.last())), self@.len() == 0 ==> r is None
+    { unimplemented!() }
+    #[verifier::external_body]
+    pub fn extension(&self) -> (r: Option<&OsStr>)
+        ensures self@.len() > 0 ==> (match r { Some(e) => ext_of(self@.last()) == Some(e@), None => ext_of(self@.last()) is None }), self@.len() == 0 ==> r is None
+    { unimplemented!() }
+    #[verifier::external_body]
+    pub fn file_name(&self) -> (r: Option<&OsStr>)
+        ensures self@.len() > 0 ==> (r matches Some(s) && s@ == self@.last()), self@.len() == 0 ==> r is None
+    { unimplemented!() }
+}
 impl Clone for PathBuf {
     #[verifier::external_body]
     fn clone(&self) -> (r: PathBuf) ensures r@ == self@ { unimplemented!() }
